@@ -42,6 +42,63 @@ fn main() {
             all.dedup();
             println!("{}", all.len());
         }
+        "minimize" => {
+            // development aid: shrink the document of a doc/line/list replay record while the
+            // violation of <PROP> persists (structure re-derived through the admission gate)
+            let prop = args.get(2).cloned().unwrap_or_default();
+            let file = args.get(3).cloned().unwrap_or_default();
+            cv::api::install_panic_hook();
+            let v: serde_json::Value = serde_json::from_str(&std::fs::read_to_string(&file).expect("read")).expect("json");
+            let v = v.get("replay").cloned().unwrap_or(v);
+            let sp = cv::api::Sp::from_json(v.get("sp").expect("sp")).expect("sp");
+            let cfg = cv::api::Cfg::from_json(v.get("cfg").expect("cfg")).expect("cfg");
+            let kind = v.get("kind").and_then(|k| k.as_str()).unwrap_or("doc").to_string();
+            let text = v.get("doc").and_then(|d| d.get("text")).and_then(|t| t.as_str()).expect("text").to_string();
+            let fails = |t: &str| -> bool {
+                let Ok(rd) = cv::gen::admit(t, &sp, &cfg) else { return false };
+                let mut ctx = Ctx::new(&prop, Tier::Quick, 0, 0, 1);
+                let step = if cfg.targets.is_empty() { 0 } else { 1 };
+                let rv = serde_json::json!({"kind": kind, "doc": rd.json(), "sp": sp.json(), "cfg": cfg.json(), "step": step});
+                let _ = cv::mon::replay(&mut ctx, &rv);
+                ctx.violation_count > 0
+            };
+            if !fails(&text) {
+                println!("does not reproduce through the admission gate");
+                return;
+            }
+            let mut cur = text;
+            // by lines, then by characters
+            for unit in ["line", "char"] {
+                let mut chunk = 64usize;
+                loop {
+                    let parts: Vec<String> = if unit == "line" {
+                        cur.split_inclusive('\n').map(|s| s.to_string()).collect()
+                    } else {
+                        cur.chars().map(|c| c.to_string()).collect()
+                    };
+                    let mut i = 0;
+                    let mut changed = false;
+                    let mut parts = parts;
+                    while i < parts.len() {
+                        let end = (i + chunk).min(parts.len());
+                        let cand: String = parts[..i].iter().chain(parts[end..].iter()).cloned().collect();
+                        if fails(&cand) {
+                            parts.drain(i..end);
+                            changed = true;
+                        } else {
+                            i += chunk;
+                        }
+                    }
+                    cur = parts.concat();
+                    if chunk == 1 && !changed {
+                        break;
+                    }
+                    chunk = (chunk / 2).max(1);
+                }
+            }
+            println!("minimized ({} bytes): {:?}", cur.len(), cur);
+            println!("delimiters {:?} {:?} names {:?} {:?} cfg {:?}", sp.ds, sp.de, sp.tl, sp.mk, cfg);
+        }
         "run" | "replay" => {
             let prop = args.get(2).cloned().unwrap_or_default();
             let tier = match arg_value(&args, "--tier").as_deref() {
